@@ -53,6 +53,9 @@ def run_impl(case, d):
             return {"skip": True}
         if case["params"].get("decoded"):
             ta.t.decode_symbol_ids()
+        if case.get("case_no", 0) % 4 == 2 and not case["params"].get("decoded"):
+            import cp_common
+            cp_common.cp_analysis_first(ta, frames, sorted(frames))        # history: another analysis of the same object first
         try:
             df = ta.get_temporal_breakdown(visualize=False)
             out = {}
